@@ -400,7 +400,12 @@ Definition cfg_step (c : cfg) (o : op) : cfg :=
       end
   | OEnable t on =>
       if bad_target (c_conf c) t then c else
-      {| c_conf := set_state (c_conf c) t (if on then LOG_STATE_ENABLED else LOG_STATE_DISABLED); c_tagsf := c_tagsf c |}
+      if on then
+        if tstate (c_conf c) t =? LOG_STATE_ENABLED then c
+        else {| c_conf := set_state (c_conf c) t LOG_STATE_ENABLED; c_tagsf := c_tagsf c |}
+      else
+        if tstate (c_conf c) t =? LOG_STATE_ENABLED
+        then {| c_conf := set_state (c_conf c) t LOG_STATE_DISABLED; c_tagsf := c_tagsf c |} else c
   | OOpen =>
       match first_unused (c_conf c) 0 with
       | Some i => {| c_conf := set_state (c_conf c) i LOG_STATE_DISABLED; c_tagsf := c_tagsf c |}
@@ -432,6 +437,13 @@ Definition log_init (priority : Z) : state :=
 Definition cfg_init (priority : Z) : cfg := {| c_conf := init_conf priority; c_tagsf := [] |}.
 
 Definition abs (st : state) : cfg := {| c_conf := conf st; c_tagsf := tagsf st |}.
+
+(* the coordinates of a log call, as a call-site record without routing state *)
+Definition call_site (fn file fmt : str) (prio line : Z) : site :=
+  {| cs_fn := fn; cs_file := file; cs_fmt := fmt; cs_prio := prio; cs_line := line; cs_targets := []; cs_tags := 0 |}.
+
+(* the configuration after a history: log calls do not change it *)
+Definition cfg_run (re_ok : str -> bool) (c : cfg) (h : list op) : cfg := fold_left (cfg_step re_ok) h c.
 
 (* the guard of the known finding about line numbers: a call site with line 0 is skipped by every later
    filter change (the code takes lineno 0 for "slot not in use"), a line >= 65536 (QB_ARRAY_MAX_ELEMENTS) fails
